@@ -46,3 +46,76 @@ def count_range(P, b, names, summaries, cache=None):
 
 def callees_in(P, b):
     return [callee_name(t)[0] for bb, t in b.calls()]
+
+
+EC = "eval_context::EvalContext::"
+
+
+def get_shape_rule(chk, P):
+    """EvalContext::get: variables first (wrapped in Value), outputs only on the None edge."""
+    g = P.body(EC + "get")
+    if not chk.anchor("EvalContext::get", g):
+        return False
+    shapes = set()
+    for pi in tab.paths(P, g, to_return_only=True):
+        dec = [(d[1], d[2]) for d in pi.decisions() if d[0] == "variant"]
+        shapes.add((tuple(dec), canon(pi.ret())))
+    want = {((("FramedMap::get(self.vars, name)", ("Some",)),), "Option::Some{0: OutputValue::Value{0: some!(FramedMap::get(self.vars, name))}}"),
+            ((("FramedMap::get(self.vars, name)", ("None",)),), "Option::cloned(HashMap::get(self.outputs, name))")}
+    return chk.require(shapes == want, "TAB", "TAB:EvalContext::get:variables-shadow-outputs", "vars.get(name) first (as Value); outputs.get(name) only on its None edge", "EvalContext::get has shape %s" % sorted(shapes))
+
+
+def handle_io_order_rule(chk, P):
+    """read branch: driver read-call -> set_outputs(answer) -> extract_output_values(answer)."""
+    hio = P.body(DRI + "handle_io")
+    if not chk.anchor("handle_io", hio):
+        return
+    seqs = set()
+    for pi in tab.paths(P, hio, to_return_only=True):
+        upd = [d[2] for d in pi.decisions() if d[0] == "bool" and d[1] == "update_output"]
+        if not upd:
+            continue
+        names = tuple(nm.split("::")[-1] for bb, nm, a in pi.calls() if nm in DRIVER or nm in (EC + "set_outputs", TD + "extract_output_values"))
+        ok_path = all(d[2] != ("Break",) for d in pi.decisions() if d[0] == "variant")
+        seqs.add((upd[0], ok_path, names))
+    want_read = (True, True, ("write_input_and_read_output", "set_outputs", "extract_output_values"))
+    chk.require(want_read in seqs and all(s[2] == want_read[2] for s in seqs if s[0] and s[1]), "ORD", "ORD:handle_io:read-set_outputs-extract", "driver read-call, then set_outputs, then extract_output_values", "read branch call orders: %s" % sorted(s for s in seqs if s[0]))
+    chk.require(all(s[2] == ("write_input",) for s in seqs if not s[0]), "ORD", "ORD:handle_io:write-branch-refreshes-nothing", "the write-only branch calls neither set_outputs nor the extraction", "write branch call orders: %s" % sorted(s for s in seqs if not s[0]))
+    for bb, t in hio.calls():
+        nm = callee_name(t)[0]
+        a = [canon(x) for x in P.call_arg_terms(hio, bb)]
+        ans = "try(TestDriver::write_input_and_read_output(self.driver, inputs))"
+        if nm == EC + "set_outputs":
+            chk.require(a == ["self.ctx", ans], "ORG", "ORG:handle_io:set_outputs-gets-this-answer", "ctx.set_outputs(&answer of this call)", "set_outputs receives %s" % a)
+        if nm == TD + "extract_output_values":
+            chk.require(a[1] == ans and a[2] == "self.ctx", "ORG", "ORG:handle_io:extract-gets-this-answer", "extract_output_values(answer, &mut ctx)", "extract_output_values receives %s" % a)
+
+
+def swap_pair_rule(chk, P):
+    """extract_output_values: swap_vars() before and after the evaluation on every path that evaluates."""
+    ex = P.body(TD + "extract_output_values")
+    if not chk.anchor("extract_output_values", ex):
+        return
+    seqs = set()
+    for pi in tab.paths(P, ex, to_return_only=True):
+        names = tuple(nm.split("::")[-1] for bb, nm, a in pi.calls() if nm in (EC + "swap_vars", "std::iter::Iterator::collect", "std::iter::Iterator::map") or (nm in P.f.bodies and nm not in (EC + "swap_vars",)))
+        seqs.add(names)
+    evals = [s for s in seqs if "collect" in s]
+    good = bool(evals) and all(s.count("swap_vars") == 2 and s.index("swap_vars") < s.index("collect") and len(s) - 1 - s[::-1].index("swap_vars") > s.index("collect") for s in evals) and all(s.count("swap_vars") == 0 for s in seqs if "collect" not in s)
+    chk.require(good, "PAIR", "PAIR:extract:swap_vars-around-evaluation", "swap_vars(); collect(map(..)); swap_vars() on every evaluating path; none on the early error return", "swap/evaluate orders on paths: %s" % sorted(seqs))
+    local_between = [s for s in evals for n in s if n not in ("swap_vars", "collect", "map")]
+    chk.require(not local_between, "PAIR", "PAIR:extract:no-crate-call-between-swaps", "only iterator plumbing between the swaps", "crate-local calls between the swaps: %s" % local_between)
+    sw = P.body(EC + "swap_vars")
+    if chk.anchor("swap_vars", sw):
+        cs = panrules.canon_calls(P, sw)
+        chk.require(cs == [("mem::swap", ["self.vars", "self.alt_vars"])], "TAB", "TAB:swap_vars", "mem::swap(&mut self.vars, &mut self.alt_vars)", "swap_vars does %s" % cs)
+    w = sorted(set(x[0].name for x in P.field_writers("eval_context::EvalContext", "alt_vars")))
+    chk.require(w == [EC + "swap_vars"], "WHO", "WHO:alt_vars-writers", "alt_vars is touched mutably only by swap_vars (it stays empty)", "alt_vars mutably used in %s" % w)
+    w = sorted(set(x[0].name for x in P.field_writers("eval_context::EvalContext", "vars")))
+    allowed = {EC + "swap_vars", EC + "set", EC + "push_frame", EC + "pop_frame"}
+    chk.require(set(w) <= allowed, "WHO", "WHO:vars-writers", str(w), "EvalContext.vars mutably used in %s" % sorted(set(w) - allowed))
+    callers = sorted(set(b.name for b, bb, nm in P.callers(lambda n: n == EC + "swap_vars")))
+    chk.require(callers == [TD + "extract_output_values"], "WHO", "WHO:swap_vars-callers", "only extract_output_values", "swap_vars called from %s" % callers)
+    # the evaluation between the swaps takes the context by shared reference
+    ev = P.body("expr::Expr::eval")
+    chk.require(ev is not None and ev.local_ty(2).startswith("&eval_context::EvalContext"), "WHO", "WHO:Expr::eval-takes-shared-ctx", "Expr::eval(&self, &EvalContext): cannot write the swapped-in map", "Expr::eval's context parameter is `%s`" % (ev.local_ty(2) if ev else "?"))
